@@ -342,14 +342,14 @@ func checkThrift(c *pbt.Ctx, cs Case) {
 	rootT := thrift.Type(cs.U.Root.K)
 	call(c, "thrift.SkipGo", len(in), func() {
 		p := thrift.BinaryProtocol{Buf: data}
-		_ = p.Skip(rootT, false)
+		_ = p.SkipGo(rootT, thrift.MaxSkipDepth)
 		if p.Read > len(data) {
 			panic(fmt.Sprintf("read cursor %d beyond the input of %d bytes", p.Read, len(data)))
 		}
 	})
 	call(c, "thrift.SkipNative", len(in), func() {
 		p := thrift.BinaryProtocol{Buf: data}
-		_ = p.Skip(rootT, true)
+		_ = p.SkipNative(rootT, thrift.MaxSkipDepth) // (BinaryProtocol.Skip never takes the native path, whatever its argument says)
 		if p.Read > len(data) {
 			panic(fmt.Sprintf("read cursor %d beyond the input of %d bytes", p.Read, len(data)))
 		}
